@@ -9,7 +9,7 @@ from . import obs
 from .core import Violation, call, exc_class
 from .model import nkey
 
-UNKNOWN = {int: 987654, str: 'zz9'}
+UNKNOWN = {int: 987654, str: 'zz9', tuple: (987, 654)}
 
 
 def guards():
